@@ -377,7 +377,8 @@ looping through all list types: {ty:?} {base:?}"
                 }
             }
             FieldValue::Enum(_) => {
-                unimplemented!("enum values are not currently supported: {self} {value:?}")
+                // Schemas cannot define enum types yet, so no type has enum values.
+                false
             }
         }
     }
